@@ -69,6 +69,14 @@ type xStep struct {
 	Out []xOut        `json:"out"`
 	T   xTimer        `json:"t"`
 	Q   int           `json:"q"`
+	Ev  *int          `json:"ev"`
+	Evl []struct {
+		I    int      `json:"i"`
+		Type int      `json:"type"`
+		H    uint64   `json:"h"`
+		R    uint32   `json:"r"`
+		Pair []string `json:"pair"`
+	} `json:"evl"`
 }
 type xWalk struct {
 	W    []xStep         `json:"w"`    // a whole behaviour with the observation after every step
@@ -120,6 +128,7 @@ type envDriver struct {
 	hb     map[uint64]*hblocks
 	myBid  string
 	unbind string // set when the abstract names cannot be bound to real blocks any more
+	votes  map[string]*types.Vote // a re-delivered abstract vote is the identical real message
 }
 
 func hasher() types.TrieHasher { return trie.NewStackTrie(nil) }
@@ -228,6 +237,21 @@ func (d *envDriver) collect() []xOut {
 	return outs
 }
 
+func (d *envDriver) voteFor(i, typ int, h uint64, r uint32, name string, id types.BlockID) *types.Vote {
+	key := fmt.Sprintf("%d/%d/%d/%d/%s", i, typ, h, r, name)
+	cp := func(v *types.Vote) *types.Vote {
+		c := v.Copy()
+		c.Signature = append([]byte{}, v.Signature...)
+		return c
+	}
+	if v, ok := d.votes[key]; ok {
+		return cp(v)
+	}
+	v := d.w.SignVoteFor(i, kproto.SignedMsgType(typ), h, r, id, time.Now())
+	d.votes[key] = v
+	return cp(v)
+}
+
 func peerOf(i int) p2p.ID { return p2p.ID(fmt.Sprintf("p%d", i)) }
 
 // do performs one specification action on the real node.
@@ -271,7 +295,7 @@ func (d *envDriver) do(a []interface{}) error {
 		if !ok {
 			return fmt.Errorf("unbound block %s", b)
 		}
-		v := d.w.SignVoteFor(i, kproto.SignedMsgType(typ), h, r, id, time.Now())
+		v := d.voteFor(i, typ, h, r, b, id)
 		if a[0].(string) == "badvote" {
 			v.Signature[11] ^= 0x20
 		}
@@ -285,7 +309,7 @@ func (d *envDriver) do(a []interface{}) error {
 		if !ok {
 			return fmt.Errorf("unbound block %s at height %d", b, h-1)
 		}
-		v := d.w.SignVoteFor(i, kproto.PrecommitType, h-1, rs.LastCommit.GetRound(), id, time.Now())
+		v := d.voteFor(i, int(kproto.PrecommitType), h-1, rs.LastCommit.GetRound(), b, id)
 		cs.VerifHandleMsg(&consensus.VoteMessage{Vote: v}, peerOf(i))
 	case "bundle":
 		typ, r, b := num(a[1]), uint32(num(a[2])), a[3].(string)
@@ -300,8 +324,7 @@ func (d *envDriver) do(a []interface{}) error {
 			if cs.GetRoundState().Height != h {
 				break
 			}
-			v := d.w.SignVoteFor(i, kproto.SignedMsgType(typ), h, r, id, time.Now())
-			cs.VerifHandleMsg(&consensus.VoteMessage{Vote: v}, peerOf(i))
+			cs.VerifHandleMsg(&consensus.VoteMessage{Vote: d.voteFor(i, typ, h, r, b, id)}, peerOf(i))
 		}
 	default:
 		return fmt.Errorf("unknown action %v", a)
@@ -396,7 +419,7 @@ func runWalk(res *mbt.Result, w *World, me int, walk *xWalk, cmpFrom int, myBid 
 		return
 	}
 	defer nd.Close()
-	d := &envDriver{w: w, me: me, nd: nd, hb: map[uint64]*hblocks{}, myBid: myBid}
+	d := &envDriver{w: w, me: me, nd: nd, hb: map[uint64]*hblocks{}, myBid: myBid, votes: map[string]*types.Vote{}}
 	nd.CS.VerifScheduleRound0()
 	for _, ti := range nd.TakeSched() {
 		d.tick.Schedule(ti)
@@ -489,6 +512,38 @@ func runWalk(res *mbt.Result, w *World, me int, walk *xWalk, cmpFrom int, myBid 
 		if gt != st.T {
 			res.Mismatch(pfx+"timer:"+st.A[0].(string), fmt.Sprintf("step %d (%v): real ticker %+v, specified %+v", k+1, st.A, gt, st.T), detail)
 			return
+		}
+		if st.Ev != nil {
+			var want, got []string
+			for _, e := range st.Evl {
+				p := append([]string{}, e.Pair...)
+				sort.Strings(p)
+				want = append(want, fmt.Sprintf("v%d/t%d/h%d/r%d/%v", e.I, e.Type, e.H, e.R, p))
+			}
+			evs, _ := nd.EvPool.PendingEvidence(1 << 30)
+			for _, e := range evs {
+				if dv, ok := e.(*types.DuplicateVoteEvidence); ok {
+					p := []string{d.nameOf(dv.VoteA.Height, dv.VoteA.BlockID.Hash), d.nameOf(dv.VoteB.Height, dv.VoteB.BlockID.Hash)}
+					sort.Strings(p)
+					got = append(got, fmt.Sprintf("v%d/t%d/h%d/r%d/%v", dv.VoteA.ValidatorIndex+1, dv.VoteA.Type, dv.VoteA.Height, dv.VoteA.Round, p))
+				}
+			}
+			sort.Strings(want)
+			sort.Strings(got)
+			// the pool may hold the same offence twice with different evidence timestamps (tryAddVote stamps it with
+			// the median of the CURRENT last commit, which grows with late precommits): that is C19's subject, the
+			// comparison here is on the set of offences
+			uniq := got[:0]
+			for i, g := range got {
+				if i == 0 || g != got[i-1] {
+					uniq = append(uniq, g)
+				}
+			}
+			got = uniq
+			if !reflect.DeepEqual(got, want) && !(len(got) == 0 && len(want) == 0) {
+				res.Mismatch(pfx+"evidence:"+st.A[0].(string), fmt.Sprintf("step %d (%v): the evidence pool holds %v, specified %v", k+1, st.A, got, want), detail)
+				return
+			}
 		}
 		if len(d.inq) != st.Q {
 			res.Mismatch(pfx+"queue:"+st.A[0].(string), fmt.Sprintf("step %d (%v): %d own messages queued, specified %d", k+1, st.A, len(d.inq), st.Q), detail)
